@@ -696,7 +696,7 @@ class SimplicialComplex:
 
         :param c: the other complex
         :returns: True if this is a sub-complex of c'''
-        for k in range(self.maxOrder()):
+        for k in range(self.maxOrder() + 1):
             ks = self.simplicesOfOrder(k)
             for i in ks:
                 # check simplex exists
